@@ -981,9 +981,14 @@ def beat_period_log_rescale(tempo_params):
 
 
 def beat_period_standardized_scale(beat_period):
-    beat_period_std = np.std(beat_period) * np.ones_like(beat_period)
+    std = np.std(beat_period)
+    beat_period_std = std * np.ones_like(beat_period)
     beat_period_mean = np.mean(beat_period) * np.ones_like(beat_period)
-    beat_period_standardized = (beat_period - beat_period_mean) / beat_period_std
+    # a constant tempo curve (or a single onset) has no spread: its standardized
+    # values are 0, not 0 / 0
+    beat_period_standardized = (beat_period - beat_period_mean) / (
+        std if std > 0 else 1.0
+    )
     return [beat_period_standardized, beat_period_mean, beat_period_std]
 
 
